@@ -15,6 +15,20 @@ HOOK_COMMITS = ["0629e56", "a0e4ab0"]
 NOT_YET = {}
 
 PROPS = {
+    "C16": {
+        "suites": [{"name": "srate", "quick": 1500, "thorough": 40000}],
+        "level_text": "Lean theorems about the labelled transition system of the sample-rate protocol (gameplay add-track path: load "
+                      "rate + init effects, enqueue; audio side: rate change over arena contents, pickup) for ALL interleavings: a "
+                      "change reaches every track the audio thread owns; the full claim is refuted for the current code by an "
+                      "explicit witness schedule (C16_stale_rate_reachable) and holds in every history where no track is in flight "
+                      "across a change (C16_rate_in_force_partial, inductive invariant). The model runs as a twin against kira "
+                      "through the public API with probe effects that log init / on_change_sample_rate / dt",
+        "level_note": "PARTIAL: the time-scaling clauses (sounds keep pitch/duration, clocks and tweens keep real-time speed, delay "
+                      "times and filter frequencies keep their values) follow from the closed forms of C04/C05/C06/C13-C14 in which the "
+                      "device rate only enters through dt = 1/rate; they are stated there, not repeated here. Atomicity finer than "
+                      "the four labelled steps (weak memory) is not modelled",
+        "assumptions": ["handles stay alive (removal is C12's subject)", "sequentially consistent atomics"],
+    },
     "C01": {
         "suites": [
             {"name": "final", "quick": 800, "thorough": 20000},
